@@ -320,6 +320,14 @@ def _ids_rules(E: Engine, rep: Report) -> None:
         r_ = S(E, vf, inline=False).ret
         handles = handles or (r_ is not None and any(t[0] == "call" and t[1] == ("name", "isinstance") for t in sym.subterms(r_)))
         rep.check(handles, "IDS", f"VariableItem.{nm}|slice-key-converted", "the key is dispatched on its kind (slice -> list of indices)", f"VariableItem.{nm} hands its key on as it is: for a slice key (`var[1:]`, accepted by Variable.__getitem__) the JSON encoder raises 'Object of type slice is not JSON serializable'", E.where(vf))
+    #     ... with the indices taken over the VARIABLE's size (`list(range(self.var.size))[key]`), in both
+    for nm in ("_to_dict", "_to_abstract_repr"):
+        vf = E.method("pulser.parametrized.variable.VariableItem", nm)
+        rng = [t for l in S(E, vf, inline=False).log for v in (l.value,) if v is not None for t in sym.subterms(v) if t[0] == "call" and t[1] == ("name", "range")]
+        r_ = S(E, vf, inline=False).ret
+        rng += [t for t in sym.subterms(r_) if t[0] == "call" and t[1] == ("name", "range")] if r_ is not None else []
+        bad_r = [t for t in rng if not any(u == ("attr", ("attr", ("name", "self"), "var"), "size") for u in sym.subterms(t))]
+        rep.check(bool(rng) and not bad_r, "IDS", f"VariableItem.{nm}|slice-indices-over-the-variable's-size", "range(self.var.size)", f"VariableItem.{nm} turns a slice key into indices with `{sh(bad_r[0], 60) if bad_r else '?'}`, not over the variable's size: `var[-2:]` of a size-4 variable is encoded as var[[0, 1]], so the decoded sequence silently reads other items", E.where(vf))
     # (c) the two JSON encoders convert the same families of numpy scalars
     fam = {}
     for q in ("pulser.json.coders.PulserEncoder.default", "pulser.json.abstract_repr.serializer.AbstractReprEncoder.default"):
@@ -337,7 +345,19 @@ def _ids_rules(E: Engine, rep: Report) -> None:
     for l in bst:
         v_ = sh(l.value, 200)
         rep.check("to_build_calls" in v_ and "'vars'" not in v_, "IDS", "PulserDecoder.object_hook|_building-from-to_build_calls", "seq._building = not obj['to_build_calls']", f"the legacy decoder sets _building = `{v_}`: a sequence that declares a variable without using it comes back parametrized (get_duration / sample / draw raise), unlike the original", E.where(oh, l.node))
-    rep.floor("IDS", 11)
+    # (e) ... and the recorded calls are replayed in the mode they were made in: the concrete calls (obj["calls"]) are
+    #     replayed BEFORE _building is restored (while the fresh sequence is not parametrized, so they are executed), the
+    #     calls waiting to be built (obj["to_build_calls"]) AFTER it (so they are only stored)
+    log_oh = S(E, oh, inline=False).log
+    def _replays(key_):
+        return [i for i, l in enumerate(log_oh) if l.kind == "call" and l.value[1][0] == "call" and l.value[1][1] == ("name", "getattr") and l.loops and any(t == ("const", key_) for t in sym.subterms(l.loops[-1]))]
+    i_calls, i_tb = _replays("calls"), _replays("to_build_calls")
+    i_bld = [i for i, l in enumerate(log_oh) if l.kind == "store" and l.target is not None and l.target[0] == "attr" and l.target[2] == "_building"]
+    if not i_calls or not i_tb or not i_bld:
+        raise AnalysisError("anchor: PulserDecoder.object_hook: replay loops over obj['calls'] / obj['to_build_calls'] or the _building store not found")
+    mixed = [i for i in i_calls if i in i_tb]
+    rep.check(not mixed and max(i_calls) < min(i_bld) < min(i_tb), "IDS", "PulserDecoder.object_hook|calls-replayed-before-_building-is-restored", "replay obj['calls']; set _building; replay obj['to_build_calls']", "the legacy decoder no longer replays the concrete calls before restoring _building (or replays both lists in one loop): concrete add / delay / phase_shift calls made before the first parametrized call are then only validated and pushed to _to_build_calls, so the decoded sequence has another schedule and call record than the original", E.where(oh, log_oh[i_bld[0]].node))
+    rep.floor("IDS", 12)
 
 
 def _replay_order(E: Engine, rep: Report, des_f) -> None:
